@@ -1,5 +1,8 @@
-import SaoVerif.Generated.Skeleton
-import SaoVerif.Spec.SkeletonExpected
+import SaoVerif.Skeleton.x_node_keeper_reputation_go
+import SaoVerif.Skeleton.x_node_keeper_node_go
+import SaoVerif.Skeleton.x_sao_keeper_msg_server_store_go
+import SaoVerif.Skeleton.x_sao_keeper_timeout_management_go
+import SaoVerif.Skeleton.x_sao_keeper_msg_server_migrate_go
 /-!
 # C15 — the decision logic of the anchor files is the one that was modelled
 
@@ -7,9 +10,10 @@ The extractor (harness/cmd/extract) regenerates, on every run and from the tree 
 function: its branching constructs in source order, each guard with its condition and with how its branch ends (`return <err>`,
 `continue`, `panic`, …). The hand-written model mirrors exactly these decisions (its `…Pre` / `…Guards` functions are the
 guards of the handlers, in their order). This theorem says that for the files the property is anchored in
-(x/node/keeper/reputation.go, x/node/keeper/node.go, x/sao/keeper/msg_server_store.go, x/sao/keeper/timeout_management.go, x/sao/keeper/msg_server_migrate.go) the regenerated skeletons equal the ones the model was written against. A change of a guard, of its
-order, or a new or removed branch breaks it: the correspondence then has to be re-established (the check searches the
-histories for a failing input and reports the violation either way).
+(x/node/keeper/reputation.go, x/node/keeper/node.go, x/sao/keeper/msg_server_store.go, x/sao/keeper/timeout_management.go, x/sao/keeper/msg_server_migrate.go) the regenerated skeletons equal the ones the model was written against
+(one kernel-evaluated equality per source file, `SaoVerif/Skeleton/<file>.lean`). A change of a guard, of its order, or a new or
+removed branch breaks it: the correspondence then has to be re-established (the check searches the histories for a failing
+input and reports the violation either way).
 -/
 namespace SaoVerif
 
@@ -24,6 +28,6 @@ theorem C15_decision_skeleton_as_modelled :
      Expected.Skel.x_sao_keeper_msg_server_store_go,
      Expected.Skel.x_sao_keeper_timeout_management_go,
      Expected.Skel.x_sao_keeper_msg_server_migrate_go] := by
-  decide +kernel
+  rw [skel_x_node_keeper_reputation_go, skel_x_node_keeper_node_go, skel_x_sao_keeper_msg_server_store_go, skel_x_sao_keeper_timeout_management_go, skel_x_sao_keeper_msg_server_migrate_go]
 
 end SaoVerif
